@@ -640,6 +640,12 @@ class Transformer:
                         valid = False
                         break
                 else:
+                    if '%' in era['format'] and '%s' not in era['format']:
+                        _add_reason(
+                            removed_zones, zone_name,
+                            f"unsupported FORMAT '{era['format']}'")
+                        valid = False
+                        break
                     if not ('%' in era['format'] or '/' in era['format']):
                         _add_reason(
                             notable_zones, zone_name,
